@@ -45,3 +45,33 @@ decreasing_by omega
 def ilog (v : Int) : Nat := ilogNat (v % 4294967296).toNat
 
 end Vorbis
+
+namespace Vorbis
+
+theorem Reader.bit_lt (r : Reader) (i : Nat) : r.bit i < 2 := by
+  unfold Reader.bit; exact Nat.mod_lt _ (by decide)
+
+theorem Reader.peek_lt (r : Reader) (pos n : Nat) : r.peek pos n < 2 ^ n := by
+  induction n generalizing pos with
+  | zero => simp [Reader.peek]
+  | succ k ih =>
+    have h1 := r.bit_lt pos
+    have h2 := ih (pos + 1)
+    simp only [Reader.peek, Nat.pow_succ]
+    omega
+
+/-- a read either fails (-1, reader dead afterwards) or yields a value in `[0, 2^n)` -/
+theorem Reader.read_range (r : Reader) (n : Nat) :
+    (r.read n).1 = -1 ∨ (0 ≤ (r.read n).1 ∧ (r.read n).1 < (2 ^ n : Nat)) := by
+  unfold Reader.read
+  split
+  · left; rfl
+  · split
+    · left; rfl
+    · right
+      have := r.peek_lt r.pos n
+      constructor
+      · exact Int.natCast_nonneg _
+      · exact Int.ofNat_lt.mpr this
+
+end Vorbis
